@@ -652,8 +652,8 @@ def to_matched_score(
         )
 
     p_na = ensure_notearray(performance)
-    part_by_id = dict((n["id"], na[na["id"] == n["id"]]) for n in na)
-    ppart_by_id = dict((n["id"], p_na[p_na["id"] == n["id"]]) for n in p_na)
+    part_by_id = dict((n["id"], na[na["id"] == n["id"]][0]) for n in na)
+    ppart_by_id = dict((n["id"], p_na[p_na["id"] == n["id"]][0]) for n in p_na)
 
     # pair matched score and performance notes
     note_pairs = [
